@@ -149,6 +149,12 @@ def same_hit(a, b):
             and a._evalue == b._evalue and a._bitscore == b._bitscore)
 
 
+@spec
+def neighbours_differ(domains, upto):
+    """no two adjacent hits among the first `upto` are hits of the same profile"""
+    return forall(range(0, upto - 1), lambda j: domains[j + 1]._hit_id != domains[j]._hit_id)
+
+
 @contract(f"{FILE}::_merge_immediate_neigbours", props=["C13"])
 class MergeImmediateNeighbours:
     """Every output is an input or a merge of adjacent same-profile inputs close enough to be one domain."""
@@ -167,9 +173,18 @@ class MergeImmediateNeighbours:
             "output-profiles-come-from-inputs": lambda result, domains:
                 forall(range(0, len(result)), lambda j: exists(
                     range(0, len(domains)), lambda m: result[j]._hit_id == domains[m]._hit_id)),
+            "nothing-merged-while-neighbours-differ-in-profile": lambda result, domains, _i:
+                implies(neighbours_differ(domains, _i + 1), len(result) == _i + 1),
+            "kept-as-they-are-while-neighbours-differ-in-profile": lambda result, domains, _i:
+                implies(neighbours_differ(domains, _i + 1),
+                        forall(range(0, _i + 1), lambda j: same_hit(result[j], domains[j]))),
         })}
     stubs = {}
     ensures = {
+        "hits-of-different-profiles-are-never-merged": lambda domains, result:
+            implies(neighbours_differ(domains, len(domains)),
+                    len(result) == len(domains)
+                    and forall(range(0, len(domains)), lambda j: same_hit(result[j], domains[j]))),
         "never-empty-never-longer": lambda domains, result: 1 <= len(result) and len(result) <= len(domains),
         "well-formed": lambda result: forall(range(0, len(result)), lambda j: hit_ok(result[j])),
     }
@@ -193,6 +208,10 @@ class RemoveIncomplete:
                                same_hit(complete[j], domains[m]) and long_enough(domains[m], hmm_lengths, threshold)))
                         and forall(range(0, _i), lambda m: implies(
                             long_enough(domains[m], hmm_lengths, threshold), len(complete) >= 1)),
+                    "every-long-enough-hit-seen-is-kept": lambda complete, domains, hmm_lengths, threshold, _i:
+                        forall(range(0, _i), lambda m: implies(
+                            long_enough(domains[m], hmm_lengths, threshold),
+                            exists(range(0, len(complete)), lambda j: same_hit(complete[j], domains[m])))),
                 }),
     }
     loops[1] = Loop(types={"longest": Real, "longest_index": Int, "i": Int, "domain": HIT, "domain_length": Int,
@@ -213,6 +232,10 @@ class RemoveIncomplete:
                     len(result) == 1 and prop_len(result[0], hmm_lengths) > fallback
                     and forall(range(0, len(domains)), lambda m: prop_len(domains[m], hmm_lengths)
                                <= prop_len(result[0], hmm_lengths))),
+        "every-complete-hit-is-kept": lambda domains, hmm_lengths, threshold, result:
+            forall(range(0, len(domains)), lambda m: implies(
+                long_enough(domains[m], hmm_lengths, threshold),
+                exists(range(0, len(result)), lambda j: same_hit(result[j], domains[m])))),
         "complete-hits-win": lambda domains, hmm_lengths, threshold, result:
             implies(exists(range(0, len(domains)), lambda m: long_enough(domains[m], hmm_lengths, threshold)),
                     len(result) >= 1 and forall(range(0, len(result)), lambda j: exists(
